@@ -12,7 +12,7 @@ import (
 func init() {
 	register(&propInfo{
 		id: "C08", fn: checkC08, multiConfig: true,
-		explanation: "Path coherence decided on the bookkeeping code itself: (r1) renameChildTo is called exactly on the success side of the backend RenameAt with the same directory, names and target, markChildDeleted exactly on the success side of UnlinkAt with the same directory and name, and every successful exit after such a backend call has passed the bookkeeping call; (r2) Trename/Tremove take the entry's name from nameFor on the current parent while holding renameMu for write; (r3) renameChildTo, notifyNameChange, notifyDelete and markChildDeleted have the required shape — overwritten target fenced first, each moved reference's parent released / re-pointed / re-acquired, re-registered under the new name in the target's node, told Renamed(target.file, newName), the detached subtree re-attached under the target's node and notified recursively through both child references and child nodes, deletion marks propagated recursively; (r4) the fencing table: deleted → EINVAL dominates the backend call (or state change) of every path-dependent handler, deleted → ENOENT every walk step, and read/write/fsync/getattr are deliberately not fenced; (r5) childRefs and childRefNames are updated together and under childMu:W in every path_tree function, removeWithName also detaches the child node, a clone of a deleted reference is not registered; (r6) every reference literal with a parent is registered in the parent's node under the name it was walked/created with.",
+		explanation: "Path coherence decided on the bookkeeping code itself: (r1) renameChildTo is called exactly on the success side of the backend RenameAt with the same directory, names and target, markChildDeleted exactly on the success side of UnlinkAt with the same directory and name, and every successful exit after such a backend call has passed the bookkeeping call; (r2) Trename/Tremove take the entry's name from nameFor on the current parent while holding renameMu for write; (r3) renameChildTo, notifyNameChange, notifyDelete and markChildDeleted have the required shape — overwritten target fenced first, each moved reference's parent released / re-pointed / re-acquired, re-registered under the new name in the target's node, told Renamed(target.file, newName), the detached subtree re-attached under the target's node and notified recursively through both child references and child nodes, deletion marks propagated recursively; (r4) the fencing table: deleted → EINVAL dominates the backend call (or state change) of every path-dependent handler, deleted → ENOENT every walk step, and read/write/fsync/getattr are deliberately not fenced; (r5) childRefs and childRefNames are updated together and under childMu:W in every path_tree function, removeWithName also detaches the child node, a clone of a deleted reference is not registered; (r6) every reference literal with a parent is registered in the parent's node under the name it was walked/created with. (r7) removal and fencing are one step for the fids bound to the entry: UnlinkAt and markChildDeleted run under the write lock of the entry's path node (the rule of C07.r3).",
 		assumptions: []string{"which object a name denotes after k renames is runtime state; only the per-step bookkeeping discipline is decided"},
 	})
 }
@@ -25,6 +25,13 @@ func checkC08(r *Run) {
 	c08Fencing(r, m)
 	c08Maps(r, m)
 	c08Registration(r, m)
+
+	// r7: fencing is atomic with the backend's removal: Tunlinkat holds the write lock of the
+	// removed entry's path node across UnlinkAt and markChildDeleted (the rule of C07.r3), so no
+	// request bound to the entry runs between the two.
+	if r.borrowed == nil {
+		r.borrow(checkC07, map[string]string{"r3": "r7"})
+	}
 }
 
 // callsIn returns the de-duplicated call sites of key within root (weakest state per call).
@@ -142,7 +149,7 @@ func c08CurrentName(r *Run, m *ServerModel) {
 		if fi == nil {
 			continue
 		}
-		res := m.resolver(fi)
+		_ = m.resolver(fi)
 		h := m.handlerInfo(fi)
 		sites := m.callsIn(fi, "p9.pathNode.nameFor")
 		if len(sites) == 0 {
@@ -151,8 +158,10 @@ func c08CurrentName(r *Run, m *ServerModel) {
 		}
 		for _, s := range sites {
 			n++
-			recv := h.canonKey(recvStr(res, s.Call))
-			arg := h.canonKey(res.str(s.Call.Args[0]))
+			// rendered in the frame the call runs in (the callback may be a method handed over
+			// by value: its receiver is the handler's reference)
+			recv := h.canonKey(s.recvStr())
+			arg := h.canonKey(s.arg(0))
 			okShape := recv == "$fid.parent.pathNode" && arg == "$fid"
 			okLock := s.St.Locks[tokRenameW]
 			r.check(okShape && okLock, "r2", "p9."+hk+": current name", s.Call.Pos(), "name = "+recv+".nameFor("+arg+") under renameMu:W",
@@ -293,6 +302,35 @@ func c08Shapes(r *Run, m *ServerModel) {
 			want(nnc != nil && r.L.str(nnc.Call.Args[0]) == origVar, "subtree notified", "notifyNameChange("+origVar+")", "files below the renamed entry are not notified (notifyNameChange on the moved node)", fi.Decl.Pos())
 		}
 	}
+	// --- a rename of an entry onto itself never reaches the bookkeeping (renameChildTo would
+	// fence the entry as "overwritten" and unregister every reference below it) ---
+	nSelf := 0
+	for _, s := range m.contextSites("p9.fidRef.renameChildTo") {
+		if s.St.Dead || len(s.Call.Args) != 3 {
+			continue
+		}
+		nSelf++
+		src := recvStr(s.Res, s.Call)
+		oldN, tgt, newN := s.arg(0), s.arg(1), s.arg(2)
+		sameDir := [2]string{src + ".pathNode == " + tgt + ".pathNode", tgt + ".pathNode == " + src + ".pathNode"}
+		sameName := [2]string{oldN + " == " + newN, newN + " == " + oldN}
+		okAll := len(s.St.Paths) > 0
+		for _, p := range s.St.Paths {
+			ref := false
+			for _, k := range append(sameDir[:], sameName[:]...) {
+				if v, ok := p[k]; ok && !v {
+					ref = true
+				}
+			}
+			if !ref {
+				okAll = false
+			}
+		}
+		r.check(okAll, "r3", s.Root.Key+": a rename onto itself is short-circuited", s.Call.Pos(), "on every path to renameChildTo the directories' path nodes differ or the names differ",
+			"renameChildTo("+oldN+", "+tgt+", "+newN+") is reachable when "+src+" and "+tgt+" are the same directory node and the names are equal (the test must compare path nodes, not fid numbers): the entry itself would be fenced as deleted and all references below it unregistered although nothing was removed")
+	}
+	r.floor("r3", "callers of renameChildTo", nSelf, 2)
+
 	// --- notifyNameChange / notifyDelete: recursion through both iterators ---
 	if fi := r.mustFunc("r3", "p9", "notifyNameChange"); fi != nil {
 		res := m.resolver(fi)
